@@ -679,6 +679,12 @@ def call_method(interp, obj, name, args, kwargs):
     raise Unsupported(f"method {type(obj).__name__}.{name}")
 
 
+def _key(t) -> str:
+    from .ctx import _term_key
+
+    return _term_key(z3.simplify(t))
+
+
 def _bstr_find(ctx, chars, sep: str, start: int) -> int:
     """First index >= start where the concrete `sep` occurs in the bounded string (forks per position)."""
     iv = lambda c: z3.IntVal(c) if isinstance(c, int) else c
@@ -829,6 +835,9 @@ def str_method(interp, s, name, args, kwargs):
             if i:
                 r = sym.str_concat(r, s)
             r = sym.str_concat(r, x)
+        if isinstance(s, str) and s and items and isinstance(mk(r), SV):
+            # remember how this text was assembled: split(sep) of it returns the parts when none contains sep
+            ctx.ghost.setdefault("joined", {})[_key(zstr(r))] = (s, list(items))
         return r
     if name == "find" and chars is None:
         return sym.sint(z3.IndexOf(zstr(s), zstr(args[0]), 0))
@@ -837,6 +846,13 @@ def str_method(interp, s, name, args, kwargs):
         zs = zstr(s)
         return sym.sstr(z3.If(z3.PrefixOf(p, zs), z3.SubString(zs, z3.Length(p), z3.Length(zs) - z3.Length(p)), zs))
     if name == "split" and chars is None:
+        if args and isinstance(mk(args[0]), str) and len(args) == 1:
+            j = ctx.ghost.get("joined", {}).get(_key(zstr(s)))
+            if j is not None and j[0] == mk(args[0]):
+                sep, parts = j
+                if all(ctx.must(z3.Not(z3.Contains(zstr(p_), z3.StringVal(sep)))) for p_ in parts):
+                    interp.used_models.add("str.split(sep) of sep.join(parts) is parts when no part contains sep")
+                    return list(parts)
         return split_model(interp, s, args, kwargs)
     if name == "replace":
         raise Unsupported("str.replace on symbolic string (replace_all)")
